@@ -128,7 +128,7 @@ _q_replay = replay
 
 
 def replay(ctx, rep):   # noqa: F811
-    if rep.get("engine") == "sched":
+    if str(rep.get("engine", "")).startswith("sched"):
         x = spar.replay_finding(MOD, rep)
         for v in x.violations:
             print("  replayed:", v)
